@@ -210,3 +210,30 @@ func getValues(decls, facts, extra, terms []string, timeout time.Duration) (map[
 	}
 	return nil, false
 }
+
+// noExt asks z3 with array extensionality switched off. Without that axiom fewer formulas are unsatisfiable, so an
+// `unsat` answer stands as it is; a `sat` answer may be spurious and is only used by the caller as a last resort, after
+// the ordinary solvers have run out of time twice (see solveAll).
+func noExt(query string, timeout time.Duration) solveResult {
+	f, err := os.CreateTemp(tmpDir(), "ob-*.smt2")
+	if err != nil {
+		return solveResult{status: "unknown", out: err.Error()}
+	}
+	f.WriteString(query)
+	f.Close()
+	defer os.Remove(f.Name())
+	ctx, cancel := context.WithTimeout(context.Background(), timeout+time.Second)
+	defer cancel()
+	t0 := time.Now()
+	solverSem <- struct{}{}
+	defer func() { <-solverSem }()
+	var out bytes.Buffer
+	cmd := exec.CommandContext(ctx, "z3-new", "-T:"+fmt.Sprint(int(timeout.Seconds())+1), "smt.array.extensional=false", f.Name())
+	cmd.Stdout = &out
+	cmd.Run()
+	first := strings.SplitN(strings.TrimSpace(out.String()), "\n", 2)[0]
+	if first == "sat" || first == "unsat" {
+		return solveResult{status: first, solver: "z3-new(array.extensional=false)", out: out.String(), dur: time.Since(t0)}
+	}
+	return solveResult{status: "unknown", out: first, dur: time.Since(t0)}
+}
